@@ -8,7 +8,8 @@ package checks
 // all, "peer pings, we read" (automatic Pong), Close/AsyncClose, "peer closes, we read" (automatic Close
 // reply)} — so pooled frames are reused after longer and after shorter ones — x transport behaviour {every
 // write accepted whole and inline; blocking writes accept 1 byte per call and async writes are deferred;
-// blocking writes accept len-1 and async writes are deferred}.
+// blocking writes accept len-1 and async writes are deferred}; as a deviation a deferred transport write stays in
+// flight while the next asynchronous operation (AsyncWrite, AsyncWriteFrame, AsyncClose) starts.
 // Oracle: the COMPLETE outbound byte stream is parsed by the independent parser: it must be a sequence of
 // whole frames with nothing left over; each frame masked, with the shortest length encoding; the data
 // frames (opcode, un-masked payload) equal the successfully submitted ones, in submission order; pongs echo
@@ -30,9 +31,24 @@ type c16Ctx struct {
 	ws       *websocket.Stream
 	vs       *vstream.Stream
 	deferred bool
-	want     []wsref.Frame // data frames expected on the wire
+	want     []c16Want // data frames submitted, in submission order (those whose callback reported success are expected on the wire)
 	pongs    []wsref.Frame
 	seed     int
+	after    []func() // judgements that need the operation's completion: run after the final drain
+}
+
+type c16Want struct {
+	f   wsref.Frame
+	err *error
+}
+
+// settle: normally the transport completes the deferred write before the next operation starts; as a deviation
+// it stays in flight, so that the next asynchronous operation overlaps it (the stream has to serialise them).
+func (c *c16Ctx) settle() {
+	if c.deferred && c.x.Deviate(2, "the write stays in flight while the next operation starts") == 1 {
+		return
+	}
+	c.drain()
 }
 
 func (c *c16Ctx) drain() {
@@ -44,8 +60,9 @@ func (c *c16Ctx) drain() {
 }
 
 type c16Op struct {
-	name string
-	run  func(c *c16Ctx)
+	name  string
+	run   func(c *c16Ctx)
+	async bool
 }
 
 func c16Menu(sizes []int) []c16Op {
@@ -67,29 +84,41 @@ func c16Menu(sizes []int) []c16Op {
 				}
 				before := len(c.vs.Out)
 				active := c.ws.State() == websocket.StateActive
-				var err error
+				perr := new(error)
 				if async {
-					calls := 0
-					c.ws.AsyncWrite(p, mt, func(e error) { calls++; err = e })
-					c.drain()
-					if calls != 1 {
-						c.x.Fail("wswrite/callback-count", "AsyncWrite(%d) invoked its callback %d times", n, calls)
+					calls := new(int)
+					c.ws.AsyncWrite(p, mt, func(e error) { *calls++; *perr = e })
+					if n > c16Max {
+						if *calls != 1 || *perr == nil || len(c.vs.Out) != before {
+							c.x.Fail("wswrite/over-max-not-refused", "%s of %d bytes (max %d): callbacks=%d err=%v, %d bytes reached the wire", nm, n, c16Max, *calls, *perr, len(c.vs.Out)-before)
+						}
+						return
 					}
-				} else {
-					err = c.ws.Write(p, mt)
+					c.want = append(c.want, c16Want{wsref.Frame{Fin: true, Op: byte(mt), Payload: p}, perr})
+					c.settle()
+					c.after = append(c.after, func() {
+						if *calls != 1 {
+							c.x.Fail("wswrite/callback-count", "AsyncWrite(%d) invoked its callback %d times", n, *calls)
+						}
+						if *perr != nil && active {
+							c.x.Fail("wswrite/refused-while-active", "%s(%d) on an active stream: %v", nm, n, *perr)
+						}
+					})
+					return
 				}
+				*perr = c.ws.Write(p, mt)
 				if n > c16Max {
-					if err == nil || len(c.vs.Out) != before {
-						c.x.Fail("wswrite/over-max-not-refused", "%s of %d bytes (max %d): err=%v, %d bytes reached the wire", nm, n, c16Max, err, len(c.vs.Out)-before)
+					if *perr == nil || len(c.vs.Out) != before {
+						c.x.Fail("wswrite/over-max-not-refused", "%s of %d bytes (max %d): err=%v, %d bytes reached the wire", nm, n, c16Max, *perr, len(c.vs.Out)-before)
 					}
 					return
 				}
-				if err == nil {
-					c.want = append(c.want, wsref.Frame{Fin: true, Op: byte(mt), Payload: p})
+				if *perr == nil {
+					c.want = append(c.want, c16Want{wsref.Frame{Fin: true, Op: byte(mt), Payload: p}, perr})
 				} else if active {
-					c.x.Fail("wswrite/refused-while-active", "%s(%d) on an active stream: %v", nm, n, err)
+					c.x.Fail("wswrite/refused-while-active", "%s(%d) on an active stream: %v", nm, n, *perr)
 				}
-			}})
+			}, async})
 		}
 	}
 	type fv struct {
@@ -125,23 +154,29 @@ func c16Menu(sizes []int) []c16Op {
 					f.SetPayload(nil)
 				}
 				active := c.ws.State() == websocket.StateActive
-				var err error
+				perr := new(error)
 				if async {
-					calls := 0
-					c.ws.AsyncWriteFrame(f, func(e error) { calls++; err = e })
-					c.drain()
-					if calls != 1 {
-						c.x.Fail("wswrite/callback-count", "AsyncWriteFrame invoked its callback %d times", calls)
-					}
-				} else {
-					err = c.ws.WriteFrame(f)
+					calls := new(int)
+					c.ws.AsyncWriteFrame(f, func(e error) { *calls++; *perr = e })
+					c.want = append(c.want, c16Want{wsref.Frame{Fin: true, Op: wsref.OpBinary, Payload: p}, perr})
+					c.settle()
+					c.after = append(c.after, func() {
+						if *calls != 1 {
+							c.x.Fail("wswrite/callback-count", "AsyncWriteFrame invoked its callback %d times", *calls)
+						}
+						if *perr != nil && active {
+							c.x.Fail("wswrite/refused-while-active", "%s(%s) on an active stream: %v", nm, v.name, *perr)
+						}
+					})
+					return
 				}
-				if err == nil {
-					c.want = append(c.want, wsref.Frame{Fin: true, Op: wsref.OpBinary, Payload: p})
+				*perr = c.ws.WriteFrame(f)
+				if *perr == nil {
+					c.want = append(c.want, c16Want{wsref.Frame{Fin: true, Op: wsref.OpBinary, Payload: p}, perr})
 				} else if active {
-					c.x.Fail("wswrite/refused-while-active", "%s(%s) on an active stream: %v", nm, v.name, err)
+					c.x.Fail("wswrite/refused-while-active", "%s(%s) on an active stream: %v", nm, v.name, *perr)
 				}
-			}})
+			}, async})
 		}
 	}
 	menu = append(menu, c16Op{"peer pings, we read", func(c *c16Ctx) {
@@ -153,17 +188,23 @@ func c16Menu(sizes []int) []c16Op {
 		c.vs.Feed(wsref.Frame{Fin: true, Op: wsref.OpPing, Payload: p}.Encode())
 		_, _ = c.ws.NextFrame()
 		c.drain()
-	}})
+	}, false})
 	menu = append(menu, c16Op{"peer closes, we read", func(c *c16Ctx) {
 		c.vs.Feed(wsref.Frame{Fin: true, Op: wsref.OpClose, Payload: wsref.ClosePayload(3000, "bye")}.Encode())
 		_, _ = c.ws.NextFrame()
 		c.drain()
-	}})
-	menu = append(menu, c16Op{"Close", func(c *c16Ctx) { _ = c.ws.Close(websocket.CloseNormal, "done") }})
+	}, false})
+	menu = append(menu, c16Op{"Close", func(c *c16Ctx) { _ = c.ws.Close(websocket.CloseNormal, "done") }, false})
 	menu = append(menu, c16Op{"AsyncClose", func(c *c16Ctx) {
-		c.ws.AsyncClose(websocket.CloseNormal, "done", func(error) {})
-		c.drain()
-	}})
+		calls := new(int)
+		c.ws.AsyncClose(websocket.CloseNormal, "done", func(error) { *calls++ })
+		c.settle()
+		c.after = append(c.after, func() {
+			if *calls != 1 {
+				c.x.Fail("wswrite/callback-count", "AsyncClose invoked its callback %d times", *calls)
+			}
+		})
+	}, true})
 	return menu
 }
 
@@ -206,6 +247,10 @@ func c16Body(tier string) func(x *engine.X) {
 				op := menu[x.Pick(len(menu), "operation")]
 				names = append(names, op.name)
 				x.Note("op %s", op.name)
+				if !op.async {
+					// blocking calls are not mixed with an asynchronous write in flight (that is the caller's to avoid)
+					c.drain()
+				}
 				op.run(c)
 				if c.vs.Overlap != "" {
 					x.Fail("wswrite/overlapping-transport-"+c.vs.Overlap, "two transport %ss in flight after %v", c.vs.Overlap, names)
@@ -215,7 +260,16 @@ func c16Body(tier string) func(x *engine.X) {
 			c.vs.Accept = nil
 			c.drain()
 			_ = c.ws.Flush()
+			for _, f := range c.after {
+				f()
+			}
 		})
+		var want []wsref.Frame
+		for _, w := range c.want {
+			if *w.err == nil {
+				want = append(want, w.f)
+			}
+		}
 		x.Note("mode %d ops %v", mode, names)
 		if nops > 1 || mode > 0 {
 			x.Nontrivial()
@@ -252,8 +306,8 @@ func c16Body(tier string) func(x *engine.X) {
 		if len(rest) != 0 || st != wsref.OK {
 			x.Fail("wswrite/malformed-outbound-stream", "outbound stream ends with %d bytes that are not a whole frame (ops %v; parsed %s)", len(rest), names, describe())
 		}
-		if i, ok := sameFrames(data, c.want); !ok {
-			x.Fail("wswrite/data-frames", "data frames on the wire %v, submitted %v (difference at %d; ops %v)", data, c.want, i, names)
+		if i, ok := sameFrames(data, want); !ok {
+			x.Fail("wswrite/data-frames", "data frames on the wire %v, submitted %v (difference at %d; ops %v)", data, want, i, names)
 		}
 		if i, ok := sameFrames(pongs, c.pongs); !ok {
 			x.Fail("wswrite/pongs", "pongs on the wire %v, pings received while active %v (difference at %d; ops %v)", pongs, c.pongs, i, names)
@@ -271,7 +325,7 @@ func C16(tier string) *engine.Report {
 	var tot engine.DFSTotals
 	d := c16DFS(tier)
 	tot.Add(d.Run(), rep)
-	tot.Fill(rep, "all sequences of <=3 operations from the write menu (Write/AsyncWrite x 8 size classes, WriteFrame/AsyncWriteFrame with payload / SetPayload(nil) / no SetPayload, automatic Pong, Close/AsyncClose, automatic Close reply) x 3 transport behaviours; "+
+	tot.Fill(rep, "all sequences of <=3 operations from the write menu (Write/AsyncWrite x 8 size classes, WriteFrame/AsyncWriteFrame with payload / SetPayload(nil) / no SetPayload, automatic Pong, Close/AsyncClose, automatic Close reply) x 3 transport behaviours, with a deferred transport write optionally left in flight while the next asynchronous operation starts; "+
 		"the complete outbound byte stream is parsed by an independent parser; non-trivial = more than one operation or a partial/deferred transport", d.MaxDeviations)
 	return rep
 }
